@@ -55,11 +55,15 @@ def main():
         seed = args.seed if args.seed is not None else int(os.environ.get("VERIF_SEED", "1"))
     except ValueError:
         seed = 1
-    from vlib import runner
+    from vlib import runner, scratch
 
     os.chdir(HERE)
     pid = args.prop.upper()
-    rc = runner.main_property(f"props.{pid.lower()}", args.tier, seed, args.replay, args.jobs)
+    tmp = scratch.create()
+    try:
+        rc = runner.main_property(f"props.{pid.lower()}", args.tier, seed, args.replay, args.jobs)
+    finally:
+        scratch.remove(tmp)
     sys.stdout.flush()
     sys.exit(rc)
 
